@@ -74,7 +74,7 @@ def gen_set_version(d, nodes, state, old):
     if cls == "greater":
         date = grammar.date_of(state)
         try:
-            later = date + dt.timedelta(days=400)
+            later = date + dt.timedelta(days=400) if date.year < 9998 else date
             if not (1000 <= later.year <= 9999) or (set(parts) & {"YY", "0Y", "GG", "0G"} and later.year > 2098):
                 later = date
             E = bumpref.ref_bump(nodes, state, major="MAJOR" in parts, minor="MINOR" in parts and "MAJOR" not in parts,
